@@ -96,3 +96,38 @@ fix_order_bad_fits (mpz_srcptr z)
     return limb <= INT_MAX;
   return 0;
 }
+
+/* negative: the same predicate written with a switch on the size */
+int
+fix_order_good_switch (mpz_srcptr z)
+{
+  mp_limb_t limb = PTR (z)[0];
+  switch (SIZ (z))
+    {
+    case 0:
+      return 1;
+    case 1:
+      return limb <= INT_MAX;
+    case -1:
+      return limb <= - (mp_limb_t) INT_MIN;
+    default:
+      return 0;
+    }
+}
+
+/* positive: the switch forgets the negative side */
+int
+fix_order_bad_switch (mpz_srcptr z)
+{
+  mp_limb_t limb = PTR (z)[0];
+  switch (SIZ (z))
+    {
+    case 0:
+      return 1;
+    case 1:
+    case -1:
+      return limb <= INT_MAX;
+    default:
+      return 0;
+    }
+}
